@@ -1,4 +1,6 @@
 import RsModel.Lemmas.CodecLookup
+import RsModel.Lemmas.CodecGrammar
+import RsModel.Lemmas.CodecLines
 /-!
 # C12 — mappings codec round-trips and matches the source-map v3 format
 
@@ -59,5 +61,35 @@ example : sortedFrom 1 0 c12_sample ∧ (∀ m ∈ c12_sample, m.small) := by
 -- the encoder drops exactly the repeat `⟨4, 3, …⟩` of the active location (the model's output
 -- "AAAA,E;ECEIE,EAAAA;;AFFG" for this sample is compared with `encode_mappings` by the harness corpus)
 example : (keptFrom {} c12_sample).length = 5 := by decide
+
+
+/-! ## the decoder on every string of the v3 grammar -/
+
+/-- on ANY string of the grammar — any number of digits per field (redundant continuation digits included), any number
+of fields per segment, empty segments, several `;` in a row — the byte-level decoder is the token-level decoder -/
+theorem c12_decode_grammar (lns : List (List (List VField))) :
+    decode (allChars lns) = (allLines decInitSt lns).2 ++ (allLines decInitSt lns).1.pending :=
+  decode_grammar lns
+
+/-- **`decode_mappings` returns exactly the segments the format defines**: whenever the reference v3 decoder (zig-zag
+deltas added to running values with range checks, column reset at `;`, segments of 1, 4 or 5 fields, empty segments
+allowed, columns may go backwards) accepts a string of the grammar, the crate's decoder yields the same mappings -/
+theorem c12_decode_v3 (lns : List (List (List VField))) (ms : List Mapping) (h : refAll {} 1 lns = some ms) :
+    decode (allChars lns) = ms := decode_v3 lns ms h
+
+/-- non-vacuity: `"AAAA,gB;;ECDQA"` with a redundant continuation digit, an empty line, a negative line delta and a name -/
+example : refAll {} 1 [[[⟨[], 0⟩, ⟨[], 0⟩, ⟨[], 0⟩, ⟨[], 0⟩], [⟨[0], 1⟩]], [], [[⟨[], 4⟩, ⟨[], 2⟩, ⟨[], 3⟩, ⟨[], 8⟩, ⟨[], 0⟩]]]
+    = some [⟨1, 0, some ⟨0, 1, 0, none⟩⟩, ⟨1, 16, none⟩, ⟨3, 2, some ⟨1, 0, 4, some 0⟩⟩] := by decide
+
+/-! ## the lines-only encoder (`columns: false`) -/
+
+/-- decoding what the lines-only encoder wrote yields exactly the first mapped segment of each generated line, at
+column 0, original column 0, without name -/
+theorem c12_lines_encoder (ms : List Mapping) (hs : ∀ m ∈ ms, ∀ o, m.orig = some o → o.src < U31 ∧ o.line < U31)
+    (h : linesOK 1 ms) : decode (encodeLines ms) = keptLines {} ms := decode_lencode ms hs h
+
+/-- … and those segments attribute every generated line (file, line) as the input did -/
+theorem c12_lines_lookup (ms : List Mapping) (l : Nat) (hl : 0 < l) : lookupLines (keptLines {} ms) l = lookupLines ms l :=
+  keptLines_lookup l ms {} (by simp; omega)
 
 end Rs
